@@ -6,7 +6,7 @@
 (* a damaged file must recover to and which one a past time selects.            *)
 EXTENDS TraceBase, FiniteSets, Integers
 
-D == INSTANCE Durable WITH MaxCommits <- 0, MaxPersists <- 0, MaxClock <- 0, DevNoEmptyCheck <- FALSE,
+D == INSTANCE Durable WITH MaxCommits <- 0, MaxPersists <- 0, MaxClock <- 0, DevNoEmptyCheck <- FALSE, DevSearchLo <- FALSE,
         file <- <<>>, cur <- 0, merged <- 0, clock <- 0, status <- "", view <- 0,
         refused <- FALSE, npersist <- 0
 
